@@ -248,3 +248,76 @@ def prop_c01(k, c, cs):
             if d:
                 return f"FAIL {'path' if path else 'stream'} chk={chk}: read back differs: {d}"
     return "ok"
+
+
+# ---------------------------------------------------------------- C03 / C05 direct evaluation
+import layout
+import refaes
+
+
+def oracle_read(chk, key, pos, data):
+    """declarative reading of the body through the independent parser: list of
+    (desc, blob, declared_or_len, enc) or a Bad reason"""
+    ents = layout.parse(key, pos, data, chk)
+    out = []
+    for desc, p, declared in ents:
+        if dict(desc).get(0xC2) == b"\x02":
+            if not p or len(p) % 16:
+                raise layout.Bad("encrypted payload is not a positive multiple of 16")
+            blob, enc = refaes.cbc_decrypt(key, bytes(16), p), True
+        else:
+            blob, enc = p, False
+        out.append((desc, blob, declared or len(blob), enc))
+    return out
+
+
+@op("prop.c05")
+def prop_c05(chk, k, pos, b):
+    key, pos, data = unhx(k), int(pos), unhx(b)
+    rdr = BytesReader(bytes(pos) + data, "test")
+    rdr.read(pos)
+    try:
+        got = Bf3File.from_binary(rdr, {}, chk == "1", key).components
+        gerr = None
+    except Exception as e:
+        got, gerr = None, type(e).__name__
+    try:
+        want = oracle_read(chk == "1", key, pos, data)
+        werr = None
+    except layout.Bad as e:
+        want, werr = None, str(e)
+    if got is None and want is None:
+        return "ok rejected"
+    if got is None:
+        return f"FAIL reader rejects ({gerr}) a well-formed authentic binary"
+    if want is None:
+        return f"FAIL reader accepts a binary that is not well-formed/authentic: {werr}"
+    have = [(list(c.description.items()), c.blob, c.actual_len, c.encrypt_by_session_key) for c in got]
+    if have != want:
+        return f"FAIL accepted, but content differs from what the fields say: {have!r:.200} vs {want!r:.200}"
+    return "ok accepted"
+
+
+@op("prop.c03")
+def prop_c03(off, k, cs):
+    """the writer's bytes = the independent serialiser's bytes; independent parser recovers the fields"""
+    key, off, comps = unhx(k), int(off), parse_comps(cs)
+    try:
+        out = Bf3File({}, comps).to_binary(off, key)
+    except Exception as e:
+        return "ok writer-rejects " + type(e).__name__
+    spec = []
+    for c in comps:
+        raw = refaes.cbc_encrypt(key, bytes(16), refaes.zero_pad(c.blob)) if c.encrypt_by_session_key else c.blob
+        spec.append((list(c.description.items()), raw, c.actual_len))
+    want = layout.serialize(key, off, spec)
+    if out != want:
+        n = next((i for i, (a, b) in enumerate(zip(out, want)) if a != b), min(len(out), len(want)))
+        return f"FAIL writer output differs from the documented layout at byte {n} ({out[n:n+8].hex()} vs {want[n:n+8].hex()})"
+    try:
+        back = layout.parse(key, off, out, True)
+    except layout.Bad as e:
+        return f"FAIL independent parser rejects the writer's output: {e}"
+    if [(d, p, a) for d, p, a in back] != spec:
+        return "FAIL independent parser recovers different fields"
+    return "ok"
